@@ -68,7 +68,7 @@ CfgOfModel ==
     consuming |-> Kind \in {"vec", "array"}, clones |-> FALSE ]
 
 MonCfg(c) == [len |-> c.len, base |-> c.base, fam |-> "counter", hint |-> "exact",
-              consuming |-> c.consuming, clones |-> c.clones, nthreads |-> c.nt, kind |-> c.kind]
+              consuming |-> c.consuming, clones |-> c.clones, nthreads |-> c.nt, extra |-> 0, kind |-> c.kind]
 
 Takes == {IF j = 9 THEN -1 ELSE j : j \in TakeSet}
 OwnerOnly == {"clone", "intoseq", "drop"}
@@ -112,7 +112,7 @@ RSeq(c, take) ==
 \* local computation after the fetch_add of a chunk pull (fetch_n / BufferedChunk::pull)
 ChunkOf(b, n, take) ==
   LET lim == IF Mutant = "clamp_off_by_one" THEN cf.len - 1 ELSE cf.len IN
-  IF b < lim THEN RChunk(b, Min2(n, cf.len - b), take) ELSE RNone
+  IF b < lim /\ n > 0 THEN RChunk(b, Min2(n, cf.len - b), take) ELSE RNone     \* an empty run is reported as None
 ItemOf(b, withIdx) == IF b < cf.len THEN RItem(IF withIdx THEN b ELSE -1, b) ELSE RNone
 LenOf(c) == IF c < cf.len THEN cf.len - c ELSE 0
 
